@@ -324,3 +324,14 @@ Check float_roots_memory_safe : forall (tbl : list PrimFloat.float) coeffs refin
   poly_solve (FloatRA tbl) coeffs refine <> Panic Index /\ poly_solve (FloatRA tbl) coeffs refine <> Panic Underflow.
 Print Assumptions float_roots_memory_safe.
 
+(* ---- tie of the model to the source of this run (package r2c2): gen/SrcRoots.v is regenerated from src/polynomial/mod.rs
+   (quadratic_solve, cubic_solve, laguer, poly_solve and the two public `roots`) by driver/rust2coq.py on every check run, over
+   the model's two-sorted RootArith (f64 / Cmplx; the libm-backed Complex::sqrt / pow / polar are its oracle operations);
+   Proofs/SrcEqRoots.v proves each regenerated function equal to Model/Roots.v -- laguer / poly_solve / roots as ERASURE
+   lemmas (the exit reasons and the traces of the laguer calls projected away) -- for EVERY RootArith: the float instance with
+   its oracle table (what the correspondence check runs) and the field instance of the theorems above alike. *)
+From OV Require Proofs.SrcEqRoots.
+Theorem model_is_source_C10_Roots : forall RA : RootArith, SrcEqRoots.model_is_source_Roots RA.
+Proof. intros RA. exact (SrcEqRoots.model_is_source_Roots_lemma RA). Qed.
+Check model_is_source_C10_Roots : forall RA : RootArith, SrcEqRoots.model_is_source_Roots RA.
+Print Assumptions model_is_source_C10_Roots.
